@@ -347,6 +347,7 @@ type nnpScript struct {
 	IdleMs     int    `json:"idle_ms"` // number of idle runtime threads to create before the load (move-old) or 0
 	LoaderMain bool   `json:"loader_main"`
 	WireIdle   int    `json:"wire_idle"`  // wire this many goroutines to threads first, so that no idle thread is left (move-new)
+	Policy     string `json:"policy_kind"` // "" = the one-name deny policy; otherwise a kind of kindPolicy (policies that restrict nothing)
 	PreNNP     string `json:"pre_nnp"`    // "leader": before the load the thread-group leader (not the loader's thread) sets no_new_privs for itself
 	DenyPrctl  bool   `json:"deny_prctl"` // the process already runs under a filter that answers EPERM to prctl(2) (as container profiles do)
 }
@@ -503,7 +504,11 @@ func childNNP(args []string) {
 			pre[t.Tid] = true
 		}
 		rep.PrctlTid = gettid()
-		err := safeLoad(seccomp.Filter{NoNewPrivs: sc.NNP, Flag: seccomp.FilterFlag(sc.Flags), Policy: *kindPolicy("A")})
+		pk := "A"
+		if sc.Policy != "" {
+			pk = sc.Policy
+		}
+		err := safeLoad(seccomp.Filter{NoNewPrivs: sc.NNP, Flag: seccomp.FilterFlag(sc.Flags), Policy: *kindPolicy(pk)})
 		if err != nil {
 			s := err.Error()
 			rep.Err = &s
